@@ -540,6 +540,21 @@ func relPkgDir(w *World, p *packages.Package) string {
 }
 
 // planAndInline mutates the syntax trees of the loaded root packages; returns the files touched.
+// VanishedIn: package directories (relative to the module) in which a reference function disappeared
+// without a renamed successor.
+var VanishedIn = map[string]bool{}
+
+func stmtCount(b *ast.BlockStmt) int {
+	n := 0
+	ast.Inspect(b, func(x ast.Node) bool {
+		if _, ok := x.(ast.Stmt); ok {
+			n++
+		}
+		return true
+	})
+	return n
+}
+
 func planAndInline(w *World, ref map[string]bool) (map[string]*ast.File, []string, func()) { // ref: keys that are NOT new
 	in := &inliner{w: w, byObj: map[types.Object]*inlCallee{}, touched: map[*ast.File]bool{}, newKeys: map[string]bool{}}
 	// collect new helpers
@@ -553,6 +568,10 @@ func planAndInline(w *World, ref map[string]bool) (map[string]*ast.File, []strin
 				}
 				k := declKey(rel, fd)
 				if !ref[k] {
+					if VanishedIn[rel] && stmtCount(fd.Body) >= 30 {
+						in.log = append(in.log, "not expanded: "+k+" (large, and a reference function of its package has no successor: taken for that successor in another form)")
+						continue
+					}
 					if obj := p.TypesInfo.Defs[fd.Name]; obj != nil {
 						c := &inlCallee{key: k, pkg: p, file: f, decl: fd, typ: fd.Type, body: fd.Body}
 						in.byObj[obj] = c
